@@ -30,7 +30,7 @@ func c15Config(tier string, variant int) *xgram.GenConfig {
 		MaxDepth: 2, MinTerms: 3, MaxTerms: 5, MinNonterms: 3, MaxNonterms: 7, MaxAlts: 3, MaxParts: 4,
 		WOpt: 12, WChoice: 6, WStar: 7, WPlus: 5, WList: 6, WSeq: 1,
 		WSet: 6, WLook: 3, WMarker: 2, WOptRef: 3, WErrorTerm: 10,
-		FullSets: true, MaxNamed: 4, MaxAsserts: 2, TopSets: true,
+		FullSets: true, MaxNamed: 4, MaxAsserts: 2, TopSets: true, CollidingSets: true,
 		HasError: true, MaxExpand: 48, AllowNoEoi: true,
 	}
 	if tier == "thorough" {
@@ -469,7 +469,7 @@ func c15One(c *fw.Ctx, g *xgram.Grammar, probeStart int) (res c15Result) {
 				c.Count("rule_sets_sharing_a_nonterminal", 1) // set(name) twice: one nonterminal is reused
 				continue
 			}
-			c.Violate("harness/set-occurrence-not-found", fmt.Sprintf("no nonterminal for the in-rule set at bytes %v", pr.SetSpan[i]), files)
+			c.Violate("set-nonterminal/not-extracted", fmt.Sprintf("no nonterminal carries the source span %v of this in-rule set: %s", pr.SetSpan[i], pr.Text[pr.SetSpan[i][0]:pr.SetSpan[i][1]]), files)
 			return
 		}
 		var got uint32
@@ -771,7 +771,7 @@ func init() {
 	const templateRuns = 4
 	fw.Register(&fw.Check{
 		ID: "C15",
-		Rule: "case 0: 6 grammars with mutually recursive %generate sets used through set(...) inside a rule and 4 grammars with such sets next to a template parameter, each compiled in its own process (a stack overflow there is classified, survivors are judged normally); case 1: 25 grammars with a %generate that is a bare reference to a later set or to itself; other cases: batches of 25 random grammars (3-5 terminals plus 'error', 3-7 nonterminals with optionals/lists/nested choices for nullable chains, lookahead markers, opt-suffix references, several inputs incl. no-eoi) with 0-4 %generate sets referring to each other (recursion included), 0-2 %assert directives, in-rule set(...) parts and nonterminals whose body is a set, set expressions of depth <= 4 over any/first/last/follow/precede of terminals and nonterminals with | & ~, plus six probe sets (follow/precede of terminals, first/last of the input); " +
+		Rule: "case 0: 6 grammars with mutually recursive %generate sets used through set(...) inside a rule and 4 grammars with such sets next to a template parameter, each compiled in its own process (a stack overflow there is classified, survivors are judged normally); case 1: 25 grammars with a %generate that is a bare reference to a later set or to itself; other cases: batches of 25 random grammars (3-5 terminals plus 'error', 3-7 nonterminals with optionals/lists/nested choices for nullable chains, lookahead markers, opt-suffix references, several inputs incl. no-eoi) with 0-4 %generate sets referring to each other (recursion included), 0-2 %assert directives, in-rule set(...) parts (every third grammar also gets 2-3 in-rule sets that are different bracketings of one operand/operator sequence) and nonterminals whose body is a set, set expressions of depth <= 4 over any/first/last/follow/precede of terminals and nonterminals with | & ~, plus six probe sets (follow/precede of terminals, first/last of the input); " +
 			"every Grammar.Sets entry, every set nonterminal (located by the byte span of its set(...) text) and afterErr/IsRecovering are compared with the reference fixpoint; complement-on-cycle must be an error and only then; probe sets are additionally bounded from below by adjacencies in the words of the input language; " +
 			"a grammar is non-trivial when at least one compared set is neither empty nor full, or a complement cycle was correctly rejected; distinctness by grammar text",
 		Assumptions: []string{
@@ -841,6 +841,9 @@ func init() {
 				if i == 0 {
 					c.Sample(g.Print().Text)
 				}
+				if g.Colliding > 0 {
+					c.Count("grammars_with_same_spelling_sets", 1)
+				}
 				for _, s := range g.Named[:probe] {
 					for _, op := range strings.Split(c15Class(g, s.Expr), "+") {
 						c.Count("op_"+op, 1)
@@ -857,6 +860,6 @@ func init() {
 		RequiredCounters: []string{"named_sets_compared", "rule_sets_compared", "afterErr_compared", "afterErr_nonempty", "recursive_named_sets_compared",
 			"grammars_with_complement_on_cycle", "sets_neither_empty_nor_full", "sets_empty", "probe_sets_checked_against_words",
 			"op_follow", "op_precede", "op_first-nonterm", "op_last-nonterm", "op_follow-nonterm", "op_precede-nonterm", "op_any-nonterm", "op_inter", "op_compl", "op_named", "op_recursive",
-			"recursive_in_rule_processes", "bare_forward_reference_grammars", "asserts_holding", "asserts_failing"},
+			"recursive_in_rule_processes", "bare_forward_reference_grammars", "asserts_holding", "asserts_failing", "grammars_with_same_spelling_sets"},
 	})
 }
